@@ -208,6 +208,23 @@ def run(p, report, tier):
                     rets = [n for n in ast.walk(hm.node) if isinstance(n, ast.Return) and isinstance(n.value, ast.Name)]
                     if hg and rets and all(dominates(ht, hg[0], r_) and r_.value.id in names_in(hg[0].test) for r_ in rets):
                         return True
+            # ... or is handed to a checking helper (statement `self._check(P)`) that raises on NaN
+            for d in ast.walk(f.node):
+                if isinstance(d, ast.Expr) and isinstance(d.value, ast.Call) and isinstance(d.value.func, ast.Attribute) \
+                        and isinstance(d.value.func.value, ast.Name) and d.value.func.value.id == "self" \
+                        and any(isinstance(a, ast.Name) and a.id == blk for a in d.value.args) \
+                        and dominates(tree, d, tree.stmt_of(c)):
+                    hm = ci.methods.get(d.value.func.attr)
+                    if hm is None:
+                        continue
+                    hparams = [a for a in hm.params() if a != "self"]
+                    pos = [i for i, a in enumerate(d.value.args) if isinstance(a, ast.Name) and a.id == blk][0]
+                    if pos >= len(hparams):
+                        continue
+                    hg = [n for n in ast.walk(hm.node) if isinstance(n, ast.If) and "isnan" in ast.unparse(n.test)
+                          and hparams[pos] in names_in(n.test) and any(isinstance(s_, ast.Raise) for s_ in n.body)]
+                    if hg:
+                        return True
             return False
         ok = bool(pre) and all(guarded(c) for c in pre)
         report.add("R19.4", f.qual, "NaN guard on the kernel block dominates the precomputed prediction",
